@@ -618,6 +618,27 @@ def seq_planck(A):
                     F.check("planck-scalar-vs-array",
                             doms & ~(err <= 2 * bound + 4 * U) if ok_shape else np.array([True]),
                             {"func": fname, "got_shape": list(np.shape(got)), "want_shape": list(np.shape(full))})
+        # -- whole-number positions / temperatures given as python ints (183 * 10**9 Hz, 250 K) ------------
+        if isinstance(T, np.ndarray) and T.size >= 1 and isinstance(f, np.ndarray) and f.size:
+            fi = int(round(float(fa.reshape(-1)[0])))
+            Ti = int(round(float(np.asarray(T).reshape(-1)[0])))
+            if fi >= 1 and Ti >= 1:
+                _S["rec"].count("seq.planck.python_int_arguments")
+                xi = M.xval(C, float(fi), float(Ti))
+                if XMIN <= xi <= XMAX:
+                    Bi = call(F, "planck", float(fi), float(Ti))
+                    Ri = call(F, "rayleighjeans", float(fi), float(Ti))
+                    for fname, a_int, a_flt in (("planck", (fi, Ti), (float(fi), float(Ti))),
+                                                ("planck", (fi, float(Ti)), (float(fi), float(Ti))),
+                                                ("rayleighjeans", (fi, Ti), (float(fi), float(Ti))),
+                                                ("radiance2planckTb", (fi, Bi), (float(fi), Bi)),
+                                                ("radiance2rayleighjeansTb", (fi, Ri), (float(fi), Ri))):
+                        got = call(F, fname, *a_int)
+                        ref = call(F, fname, *a_flt)
+                        err = _relerr(np.asarray(got, dtype=float), M.ld(np.asarray(ref, dtype=float)))
+                        F.check("planck-python-int", ~(np.asarray(err) <= 2 * M.rel_planck(np.asarray(xi)) + 16 * U),
+                                {"func": fname, "f": fi, "T": Ti, "got": np.asarray(got, dtype=float),
+                                 "as_float": np.asarray(ref, dtype=float)})
     except Abort:
         pass
     return F
